@@ -59,3 +59,33 @@ func ZZ_C08_unmarshalled_context_invariant() {
 		ZZ_C10_hpke_unmarshalled_opener_usable()
 	}
 }
+
+// C11/C08: a restored context owns its state.  Sealing / opening on a context obtained from
+// UnmarshalSealer / UnmarshalOpener does not write to the byte string it was decoded from (the
+// caller's operand), and two contexts decoded from the same bytes advance independently: the second
+// one still seals its first message under sequence number = the encoded one.  All field bytes
+// symbolic; AEAD = uninterpreted stub.
+//
+//zz: prop=C11 also=C08 tier=quick backend=bv timeout=300
+func ZZ_C11_hpke_unmarshalled_context_owns_its_state() {
+	raw := []byte{0, 0x00, 0x20, 0x00, 0x01, 0x00, 0x01}
+	for _, n := range []int{32, 16, 12, 12} {
+		raw = append(raw, byte(n))
+		field := make([]byte, n)
+		zzFill("field", field)
+		raw = append(raw, field...)
+	}
+	before := append([]byte{}, raw...)
+	a, err := UnmarshalSealer(raw)
+	b, err2 := UnmarshalSealer(raw)
+	zzAssert(err == nil && err2 == nil, "a well-formed context decodes")
+	sa, sb := a.(*sealContext), b.(*sealContext)
+	sa.AEAD, sb.AEAD = &zzAEAD{}, &zzAEAD{}
+	seq0 := append([]byte{}, sb.sequenceNumber...)
+	pt := []byte{1}
+	_, e1 := a.Seal(pt, nil)
+	zzAssert(zzBytesEq(raw, before), "sealing on a restored context leaves the decoded byte string unchanged")
+	if e1 == nil {
+		zzAssert(zzBytesEq(sb.sequenceNumber, seq0), "a second context decoded from the same bytes is not advanced by the first")
+	}
+}
